@@ -64,11 +64,13 @@ def build(run):
         def hook(w, e, comp, env):
             if isinstance(e, C.Argument):
                 nbr = e.number()
+                if subst and (nbr, e.part()) in subst:
+                    return atoms_hook(w, subst[(nbr, e.part())], comp, env)
                 if subst and nbr in subst:
                     return atoms_hook(w, subst[nbr], comp, env)
                 if swap:
                     nbr = 1 - nbr
-                val = w.symbol(f"v{nbr}", comp)
+                val = w.symbol(f"v{nbr}" + (f"p{e.part()}" if e.part() is not None else ""), comp)
                 if scale is not None:
                     return N.mul(scale.get(e.number(), 1), val)
                 return val
@@ -286,6 +288,33 @@ def build(run):
             return check_form(world(complex_mode=True), r, lambda w, key: part_sum(derive_world(w, subst={1: co}), form_parts(ae).get(key, [])), [ae],
                               f"action({fname}) default coefficient", tmo)
         run.add(f"action-default-coefficient/{fname}", act_default, kind="values")
+
+    # ---- action on forms over a MixedFunctionSpace with a user-supplied list of coefficients: the argument of part p is replaced by coefficient[p],
+    # whichever parts actually occur in the form
+    S2 = ufl.FunctionSpace(tri, E.LagrangeElement(cell, 2))
+    W = ufl.MixedFunctionSpace(S, S2, S)
+    (mv0, mv1, mv2), (mu0, mu1, mu2) = ufl.TestFunctions(W), ufl.TrialFunctions(W)
+    mixed_forms = [
+        ("all trial parts present", lambda: (mu0 * mv0 + mu1 * mv1 + mu2 * mv0 + grad(mu1)[0] * mv2) * dx, 1),
+        ("only trial part 1 present", lambda: mu1 * mv0 * dx + grad(mu1)[0] * mv1 * dx, 1),
+        ("only trial part 2 present", lambda: f * mu2 * mv0 * dx + mu2 * mv2 * ds, 1),
+        ("trial parts 0 and 2 present", lambda: mu0 * mv1 * dx + g * grad(mu2)[1] * mv1 * dx, 1),
+        ("linear form, only test part 1 present", lambda: f * grad(mv1)[1] * dx, 0),
+        ("linear form, test parts 1 and 2 present", lambda: f * mv1 * dx + g * mv2 * ds, 0),
+    ]
+    for fname, mkA, top in mixed_forms:
+        def act_mixed(mkA=mkA, fname=fname, top=top):
+            a = mkA()
+            cos = [ufl.Coefficient(S), ufl.Coefficient(S2), ufl.Coefficient(S)]
+            try:
+                r = action(a, cos)
+            except ValueError as ex:
+                if not deliberate(ex):
+                    return violated(f"crash instead of a result or a refusal: {crash_text(ex)}", reproduced=True, backend="exec")
+                return proved("refused", sample=f"action refuses: {ex}"[:200])
+            return check_form(world(complex_mode=True), r, lambda w, key: part_sum(derive_world(w, subst={(top, p_): cos[p_] for p_ in range(3)}), form_parts(a).get(key, [])), [a],
+                              f"action({fname}, [c0, c1, c2])", tmo)
+        run.add(f"action-mixed-function-space/{fname}", act_mixed, kind="values")
 
     def canary():
         F = u * v * dx - f * v * dx
